@@ -56,6 +56,11 @@ def gen_history(R, tier):
         oref = R.choice([None, None, None, 0, 5, 5, 128]) if kind != 'origin' else R.choice([None, None, 5, 5, 7])
         ops.append({'lf': lf, 'kind': kind, 'sn': sn, 'name': R.choice(names), 'oref': oref, 'out': out,
                     'variant': R.randrange(3)})
+        if kind != 'origin' and R.random() < 0.15:
+            # the user passes the reference reported by an origin of the logical file (origin.origin_reference), whatever
+            # number that origin was given: resolved when the history is applied
+            ops[-1]['oref_of'] = R.choice([0, 1, 1])
+            ops[-1]['oref'] = None
         if kind == 'origin' and out == 'ok':
             have_origin[lf] = True
     if R.random() < 0.2:
@@ -101,6 +106,7 @@ def apply_history(h, drop_rejected=False):
     live = []
     outcomes = []
     chans = {}
+    origins = {}
     for op in h['ops']:
         if drop_rejected and op['out'] != 'ok':
             continue
@@ -110,6 +116,10 @@ def apply_history(h, drop_rejected=False):
         kw = {}
         if op['sn'] is not None:
             kw['set_name'] = op['sn']
+        if 'oref_of' in op:
+            have = origins.get(op['lf'], [])
+            op['oref'] = have[op['oref_of']].origin_reference if op['oref_of'] < len(have) else None
+            op['chosen_origin'] = op['oref']
         if op['oref'] is not None:
             kw['origin_reference'] = op['oref']
         name = op['name']
@@ -130,6 +140,10 @@ def apply_history(h, drop_rejected=False):
             live.append((res, op['lf']))
             if kind == 'channel':
                 chans[op['lf']] = res
+            if kind == 'origin':
+                origins.setdefault(op['lf'], []).append(res)
+            if op.get('chosen_origin') is not None:
+                op['got_origin'] = res.origin_reference
     return df, lfs, live, outcomes
 
 
